@@ -136,6 +136,53 @@ func freshStats(prom bool) {
 	}
 }
 
+// meanSweep: "means equal sum over count" for values of every magnitude a duration in milliseconds can take in a long
+// crawl (the interleaving scenarios add 10 and 30 ms only): every sequence of at most three additions over the value
+// alphabet, on each of the three means, sequentially. Returns a description of the first mean that differs ("" = none).
+func meanSweep() string {
+	vals := []uint64{1, 1<<31 - 1, 1 << 31, 1<<32 - 1, 1 << 32, 1<<33 + 7, 1 << 40}
+	means := []struct {
+		name  string
+		add   func(time.Duration)
+		reset func()
+		get   func() float64
+	}{
+		{"mean HTTP response time", stats.MeanHTTPRespTimeAdd, stats.MeanHTTPRespTimeReset, stats.MeanHTTPRespTimeGet},
+		{"mean process-body time", stats.MeanProcessBodyTimeAdd, stats.MeanProcessBodyTimeReset, stats.MeanProcessBodyTimeGet},
+		{"mean wait-on-feedback time", stats.MeanWaitOnFeedbackTimeAdd, stats.MeanWaitOnFeedbackTimeReset, stats.MeanWaitOnFeedbackTimeGet},
+	}
+	freshStats(false)
+	for _, m := range means {
+		var rec func(seq []uint64) string
+		rec = func(seq []uint64) string {
+			if len(seq) > 0 {
+				m.reset()
+				var sum uint64
+				for _, v := range seq {
+					m.add(time.Duration(v) * time.Millisecond)
+					sum += v
+				}
+				if want, got := float64(sum)/float64(len(seq)), m.get(); got != want {
+					return fmt.Sprintf("mean-differs-from-sum-over-count: %s after adding %v ms (one goroutine, no interleaving): reported %v, sum over count is %v", m.name, seq, got, want)
+				}
+			}
+			if len(seq) == 3 {
+				return ""
+			}
+			for _, v := range vals {
+				if r := rec(append(append([]uint64{}, seq...), v)); r != "" {
+					return r
+				}
+			}
+			return ""
+		}
+		if r := rec(nil); r != "" {
+			return r
+		}
+	}
+	return ""
+}
+
 // scenario builds the controlled-scheduler scenario of one spec.
 func scenario(spec scenarioSpec) *vsched.Scenario {
 	finals := sequentialFinals(spec)
@@ -383,6 +430,11 @@ func main() {
 	if a.Replay != "" {
 		replay(a)
 		return
+	}
+	if a.Of <= 1 && a.Extra["group"] == "" {
+		if msg := meanSweep(); msg != "" {
+			hkit.Report(propID, "mean-differs-from-sum-over-count:value-range", map[string]any{"engine": "explore", "harness": "c17", "sweep": msg}, msg)
+		}
 	}
 	specs := allScenarios(a.Tier)
 	if g := a.Extra["group"]; g != "" { // experiments: restrict to one group
